@@ -50,6 +50,7 @@ def build(tier, rnd):
     out += same_alias_and_case_cases(9 if tier == "quick" else 60, common.env.seed() * 31 + 5)
     out += paren_setop_cases(15 if tier == "quick" else 100, common.env.seed() * 37 + 5)
     out += recursive_cte_cases(6 if tier == "quick" else 40, common.env.seed() * 41 + 5)
+    out += update_shape_cases(12 if tier == "quick" else 80, common.env.seed() * 43 + 5)
     # statement kinds that only some dialects accept are always shown to dialects that do
     g2 = sqlgen.Gen(random.Random(99))
     for i in range(6):
@@ -119,6 +120,31 @@ def recursive_cte_cases(n, seed):
         q = With([(nm, SetOp("union all", [anchor, rec]))], body)
         kind = rnd.choice(["insert", "ctas", "bare", "create_view"])
         out.append((("recursive_cte", i), Stmt(kind, Base(f"tb_rw{i}", rnd.choice([None, "sb"])) if kind != "bare" else None, q), ["tsql", "snowflake", rnd.choice(["oracle", "db2", "sqlite"])]))
+    return out
+
+
+def update_shape_cases(n, seed):
+    """UPDATE shapes: the target shares its bare name with a schema-qualified source; SET targets qualified by the target's own name;
+    sources joined / comma separated / derived; sub-queries in SET and WHERE"""
+    from vlib.sqlgen import Base, Derived, Group, Item, P, Select, Stmt, col
+    rnd = random.Random(seed + 17)
+    out = []
+    for i in range(n):
+        nm = f"tb_un{i}"
+        tgt = Base(nm, rnd.choice([None, None, "sb"]))
+        k = i % 4
+        if k == 0:
+            srcs = [Group(Base(nm, "sa", f"s{i}"))]  # namesake of the target in another schema, aliased
+        elif k == 1:
+            srcs = [Group(Base(nm, "sa" if tgt.schema != "sa" else "sb", None), [("inner", Base(f"tb_uj{i}", None, f"j{i}"), "on")])]  # namesake, un-aliased, joined
+        elif k == 2:
+            srcs = [Group(Base(f"tb_ua{i}", None, f"a{i}")), Group(Base(nm, "sa", f"b{i}"))]
+        else:
+            srcs = [Group(Derived(Select([Item(col("c_1")), Item(col("c_2"))], [Group(Base(nm, "sa"))]), f"d{i}"))]
+        first = srcs[0].rels()[0]
+        sets = [("c_1", col("c_1", first.key()))]
+        where = P("in", colref=col("k_1", first.key()), query=Select([Item(col("k_1"))], [Group(Base(f"tb_uw{i}", rnd.choice([None, "sa"])))])) if i % 2 else None
+        out.append((("update_shape", i), Stmt("update", tgt, None, None, {"set": sets, "from": srcs, "where": where}), ["ansi", rnd.choice(["postgres", "snowflake", "tsql", "redshift", "sqlite"])]))
     return out
 
 
